@@ -20,7 +20,9 @@
    exactly the requested chunks.  Arrays hold element ids (row-major position). *)
 EXTENDS NDArray, TLC, Json
 
-MaxSeq(c) == Max({c[i] : i \in DOMAIN c})
+RECURSIVE MaxSeq(_)
+MaxSeq(c) == IF Len(c) = 1 THEN c[1]
+             ELSE LET m == MaxSeq(Tail(c)) IN IF Head(c) >= m THEN Head(c) ELSE m
 
 -----------------------------------------------------------------------------
 (* Part 1: normalize_chunks *)
